@@ -814,6 +814,56 @@ func ReachesMutualRecursion(m *rm.Model, typ, rel string) bool {
 	return false
 }
 
+// SelfRecursiveTTU: some relation T#r reachable from typ#rel contains the tuple-to-userset `r from ts`
+// whose tupleset admits objects of T itself (viewer: ... or viewer from parent; parent: [T]).
+func SelfRecursiveTTU(m *rm.Model, typ, rel string) bool {
+	type node struct{ t, r string }
+	seen := map[node]bool{}
+	stack := []node{{typ, rel}}
+	for len(stack) > 0 {
+		n := stack[len(stack)-1]
+		stack = stack[:len(stack)-1]
+		if seen[n] {
+			continue
+		}
+		seen[n] = true
+		r := m.Rel(n.t, n.r)
+		if r == nil {
+			continue
+		}
+		found := false
+		var walk func(rw *rm.Rewrite)
+		walk = func(rw *rm.Rewrite) {
+			switch rw.Kind {
+			case rm.Computed:
+				stack = append(stack, node{n.t, rw.Relation})
+			case rm.TTU:
+				if ts := m.Rel(n.t, rw.Tupleset); ts != nil {
+					for _, res := range ts.Restrictions {
+						stack = append(stack, node{res.Type, rw.Relation})
+						if res.Type == n.t && rw.Relation == n.r {
+							found = true
+						}
+					}
+				}
+			}
+			for _, c := range rw.Children {
+				walk(c)
+			}
+		}
+		walk(r.Rewrite)
+		if found {
+			return true
+		}
+		for _, res := range r.Restrictions {
+			if res.Relation != "" {
+				stack = append(stack, node{res.Type, res.Relation})
+			}
+		}
+	}
+	return false
+}
+
 // SelfRecursiveUsersetUnion: some relation reachable from typ#rel is directly assignable to its own
 // userset (T#r on T#r), alone or next to further branches.
 func SelfRecursiveUsersetUnion(m *rm.Model, typ, rel string) bool {
